@@ -412,7 +412,7 @@ def subject_redefine(case):
         bb = cm.render_particle(case['base'], nb)
         decls = ''.join('<xs:element name="%s" type="xs:string"/>' % k for k in ('a', 'b', 'c', 'd', 'h'))
         decls += '<xs:element name="mid" type="xs:string" substitutionGroup="t:h" abstract="true"/>'
-    decls += '<xs:element name="m" type="xs:string" substitutionGroup="t:mid"/>'
+        decls += '<xs:element name="m" type="xs:string" substitutionGroup="t:mid"/>'
         head = ('<xs:schema xmlns:xs="http://www.w3.org/2001/XMLSchema" targetNamespace="%s" xmlns:t="%s" '
                 'elementFormDefault="qualified">' % (cm.TNS, cm.TNS))
         (d / 'base.xsd').write_text(head + decls + ''.join(nb) + '<xs:complexType name="B">%s</xs:complexType>'
